@@ -14,3 +14,4 @@ import Peppi.Props.C10
 #print axioms Peppi.Props.C10.example_G
 #print axioms Peppi.Props.C10.example_A_roundtrip
 #print axioms Peppi.Props.C10.C10_rewrite_any
+#print axioms Peppi.Props.C10.slppRead_written
